@@ -176,7 +176,7 @@ func newInterp(l *loaded, tier string, solverTimeout int) (*Interp, error) {
 	if err != nil {
 		return nil, err
 	}
-	in := &Interp{prog: l.prog, tt: tt, solver: s, tier: tier, maxSteps: 3000000, maxPaths: 200000, maxPreempt: 2, fnInfos: map[*ssa.Function]*fnInfo{}}
+	in := &Interp{prog: l.prog, tt: tt, solver: s, tier: tier, maxSteps: 3000000, maxPaths: 200000, maxPreempt: 2, fnInfos: map[*ssa.Function]*fnInfo{}, varMemo: map[int][]int{}, noSlice: os.Getenv("VERIF_NOSLICE") != ""}
 	return in, nil
 }
 
